@@ -483,6 +483,8 @@ def r_levels(prog, tier):
                     extra = [x[0] for x in facts_at(cfg, a.id) if x[0] not in [y[0] for y in facts_at(cfg, rev[0].id)]]
                     if extra:
                         cond = (unparse(a.ast), extra[-1])
+            if not together and not all(cfg.same_loop(a.id, r.id) for a in app for r in rev):
+                cond = None         # the two tables are filled in different loops: not comparable statement by statement
             obs.append(Ob('R-LEVELS', f.fq, 'every constituent is entered into both level tables',
                           True if together else (False if cond else None),
                           'the two recordings always happen together' if together else
@@ -657,7 +659,20 @@ def r_expnum(prog, tier):
                        or (isinstance(c.func, ast.Attribute) and c.func.attr == 'sort') for c in all_calls)
         helper_calls = [c for c in all_calls if prog.callee(c, f) is not None and prog.callee(c, f) != ('trees', 'levels')
                         and prog.callee(c, f)[1] not in ('terminals', 'children')]
-        if not any_leftmost_sort and (any_sort or helper_calls or prog.opaque_calls(f, [lvname] if lvname else [])):
+        # positive evidence: the sort key reads the NUMBER OF A CHILD NODE - for a child that is a phrase this is the phrase
+        # number being handed out (500, 501, ...), compared with the token numbers of children that are tokens
+        childnum = None
+        for c in all_calls:
+            k_ = _kw(c, 'key')
+            if isinstance(k_, ast.Lambda) and ".data['num']" in unparse(k_.body) and 'children(' in unparse(k_.body) \
+                    and 'terminals(' not in unparse(k_.body):
+                childnum = unparse(k_.body)
+        if not any_leftmost_sort and childnum:
+            l2r = False
+            whyl = 'the nodes of a level are sorted by `%s`, the number of their first CHILD: a first child that is a phrase already ' \
+                   'carries its new phrase number (500 and up), so a node starting with a phrase sorts behind every node starting ' \
+                   'with a token' % childnum[:60]
+        elif not any_leftmost_sort and (any_sort or helper_calls or prog.opaque_calls(f, [lvname] if lvname else [])):
             l2r, whyl = None, 'a sort with a key this rule does not recognise decides the order inside a level'
         elif not any_leftmost_sort:
             l2r, whyl = False, 'nodes of one level are never sorted by their leftmost token: they are numbered in the order ' \
